@@ -1,6 +1,6 @@
 (* C10 -- What the driver resolves is exactly what the build steps see. *)
 From Coq Require Import List NArith Bool.
-From Verif Require Import Model.Csv Proofs.Csv_facts Model.GlyphName Proofs.GlyphName_facts.
+From Verif Require Import Model.Csv Proofs.Csv_facts Model.GlyphName Proofs.GlyphName_facts Model.FileName Proofs.FileName_facts.
 Import ListNotations.
 Local Open Scope N_scope.
 
@@ -50,3 +50,17 @@ Print Assumptions C10_raw_name_injective.
 Theorem C10_g_prefix_collision : glyph_name [103; 128512] = glyph_name [128512].
 Proof. exact g_prefix_collision. Qed.
 Print Assumptions C10_g_prefix_collision.
+
+(* T5: code points encoded in a conventional source file stem are recovered exactly: with or
+   without the "emoji_u" prefix, with '-' or '_' between code points, for every printer of a
+   code point that writes a non-empty hexadecimal numeral (any padding, either letter case) *)
+Theorem C10_from_filename_roundtrip :
+  forall (pr : N -> text) (sep c : N) (cps : list N),
+    hex_printer pr -> is_sep sep = true ->
+    from_filename (join_c sep (map pr (c :: cps))) = Some (c :: cps) /\
+    from_filename (EMOJI_U ++ join_c sep (map pr (c :: cps))) = Some (c :: cps).
+Proof. exact from_filename_roundtrip. Qed.
+Print Assumptions C10_from_filename_roundtrip.
+Theorem C10_hex04_is_printer : hex_printer hex04.
+Proof. exact hex04_is_printer. Qed.
+Print Assumptions C10_hex04_is_printer.
